@@ -1032,10 +1032,20 @@ def access_path(e, tables):
     return Access(tname, col, row)
 
 
-def prune(body, consts):
+def prune(body, consts, subst=False):
     """copy of `body` in which every `if` decidable under `consts` is replaced by the taken branch, recursively inside loops,
-    try and with blocks (compound nodes are shallow-copied, simple statements are shared with the original tree)."""
-    return _prune(body, consts)[0]
+    try and with blocks (compound nodes are shallow-copied, simple statements are shared with the original tree).
+    subst: names known to hold a literal at a statement are written as that literal there."""
+    global _PRUNE_SUBST
+    old = _PRUNE_SUBST
+    _PRUNE_SUBST = subst
+    try:
+        return _prune(body, consts)[0]
+    finally:
+        _PRUNE_SUBST = old
+
+
+_PRUNE_SUBST = False
 
 
 def _assigned_names(stmts):
@@ -1145,6 +1155,12 @@ def _prune(body, consts):
 
 def _prune_ifexp(s, consts):
     """a simple statement whose conditional expressions are decidable under the constants: a copy with the taken operands"""
+    if _PRUNE_SUBST:
+        env_ = {k: ast.Constant(value=v) for k, v in consts.items() if "." not in k and (v is None or isinstance(v, (str, bool)))}
+        tg = {n.id for n in ast.walk(s) if isinstance(n, ast.Name) and isinstance(n.ctx, (ast.Store, ast.Del))}
+        env_ = {k: v for k, v in env_.items() if k not in tg}
+        if env_ and any(isinstance(n, ast.Name) and n.id in env_ and isinstance(n.ctx, ast.Load) for n in ast.walk(s)):
+            s = _SubstEnv(env_).visit(copy.deepcopy(s))
     if not any(isinstance(n, ast.IfExp) and const_test(n.test, consts) is not _UNDEC for n in ast.walk(s)):
         return s
 
@@ -1192,11 +1208,13 @@ def alias_root(fnode, name, limit=12):
 class PrunedFn:
     """a function specialised to constant seeds (decidable branches removed everywhere); usable where a FuncInfo is expected"""
 
-    def __init__(self, fi, consts):
+    def __init__(self, fi, consts, subst=False):
         self.fi = fi
         self.mod, self.cls, self.qual = fi.mod, fi.cls, fi.qual
         self.is_property = self.is_static = self.is_classmethod = False
-        body = prune(fi.node.body, consts)
+        # subst: names holding a literal label / flag at a statement are written as that literal there, so that helpers they are handed to
+        # can be specialised too
+        body = prune(fi.node.body, consts, subst=subst)
         node = ast.FunctionDef(name=fi.node.name, args=fi.node.args, body=body or [ast.Pass()], decorator_list=[], returns=None)
         ast.copy_location(node, fi.node)
         if PROG is not None and getattr(PROG, "desugarer", None) is not None:
